@@ -46,8 +46,14 @@ def base_element(g, eid, SR, chans, N):
             nm = r.choice([None, "a", "b", "pi2pulse"])
             bops.append({"op": "bp.insert", "id": bid, "pos": -1, "fn": fn, "args": [enc(a) for a in args], "dur": enc(n / SR), "name": enc(nm)})
         bops.append({"op": "bp.setSR", "id": bid, "SR": enc(SR)})
+        tbl = [(n, f, c) for (n, f), c in zip(seg_table(bops), counts)]
+        for nm, _, c in tbl:
+            if r.random() < 0.4:
+                # a window bound to the segment (a swept duration may become shorter than the window: the window is kept)
+                bops.append({"op": "bp.setSegMarker", "id": bid, "name": nm, "specs": [q(r.choice([0, 1]) / SR), q(r.randint(1, max(1, c)) / SR)],
+                             "mid": r.choice([1, 2])})
         ops += bops + [{"op": "el.addBP", "id": eid, "ch": ch, "bp": bid}]
-        table[ch] = [(n, f, c) for (n, f), c in zip(seg_table(bops), counts)]
+        table[ch] = tbl
     return ops, table
 
 
